@@ -261,6 +261,7 @@ void gen_c06(Gen &g) {
 // generic history generator on small caller buffers (C07, C13, C15 share it with different mixes)
 struct HistCfg {
   int w_asm = 45, w_count = 8, w_chunk = 10, w_offset = 15, w_setter = 8, w_debug = 3, w_other_inst = 4, w_exec = 0;
+  int w_repeat = 0;  // the same text again at the same offset as an earlier call (after whatever happened in between)
   int max_ops = 30;
   long n_lo = 0, n_hi = 80;
   bool allow_internal = false;
@@ -305,15 +306,43 @@ void gen_history_task(Gen &g, Task &t, const HistCfg &cfg) {
     gi[0].m.offset = so.k;
   }
   int nops = (int)r.geom(3, cfg.max_ops, 10);
-  int total = cfg.w_asm + cfg.w_count + cfg.w_chunk + cfg.w_offset + cfg.w_setter + cfg.w_debug + cfg.w_other_inst + cfg.w_exec;
+  int total = cfg.w_asm + cfg.w_count + cfg.w_chunk + cfg.w_offset + cfg.w_setter + cfg.w_debug + cfg.w_other_inst + cfg.w_exec + cfg.w_repeat;
+  std::vector<std::string> last_prog[2];
+  long last_start[2] = {-1, -1};
   for (int i = 0; i < nops; i++) {
     int slot = (gi[1].m.live && r.chance(1, 3)) ? 1 : 0;
     InstModel &m = gi[slot].m;
     if (!m.live) {
       create(slot);
+      last_start[slot] = -1;
       continue;
     }
     int w = (int)r.below((uint64_t)total);
+    if ((w -= cfg.w_repeat) < 0) {
+      if (last_start[slot] < 0 || last_prog[slot].empty()) continue;
+      Op so = g.mk(OP_OFFSET, slot);
+      so.k = last_start[slot];
+      t.ops.push_back(so);
+      m.offset = so.k;
+      m.offset_unspec = false;
+      Op o = g.mk(OP_ASM, slot);
+      o.lines = last_prog[slot];
+      o.fresh_twin = cfg.fresh_twin && !m.chunk_unknown;
+      t.ops.push_back(o);
+      if (m.chunk_unknown)
+        m.offset_unspec = true;
+      else {
+        long end = 0;
+        int fr = walk_expect(m, o.lines, m.chunk > 0 ? M_FIT : M_PLAIN, m.chunk, m.offset, &end, nullptr, nullptr);
+        if (fr == FR_NONE) {
+          m.offset = end;
+          m.hi = std::max(m.hi, end);
+        } else
+          m.offset_unspec = true;
+      }
+      m.offset_explicit = false;
+      continue;
+    }
     if ((w -= cfg.w_asm) < 0 || false) {
       // assemble
       long room = m.external ? m.cap - (m.offset_unspec ? 0 : m.offset) : 4000;
@@ -354,6 +383,8 @@ void gen_history_task(Gen &g, Task &t, const HistCfg &cfg) {
         long end = 0;
         int fr = walk_expect(m, prog, m.chunk > 0 ? M_FIT : M_PLAIN, m.chunk, m.offset, &end, nullptr, nullptr);
         if (fr == FR_NONE) {
+          last_prog[slot] = prog;
+          last_start[slot] = m.offset;
           m.offset = end;
           m.hi = std::max(m.hi, end);
         } else
@@ -778,6 +809,7 @@ void gen_c15(Gen &g) {
   cfg.w_debug = 3;
   cfg.w_other_inst = 6;
   cfg.fresh_twin = true;
+  cfg.w_repeat = 12;
   cfg.allow_internal = true;
   cfg.n_lo = 64;
   cfg.n_hi = 600;
@@ -808,17 +840,20 @@ void gen_c12(Gen &g) {
     Task t;
     bool live[2] = {false, false};
     int nops = (int)r.geom(2, 24, 8);
-    t.ops.push_back(mk_create(g, 0, 128));
+    // caller buffers and library-managed buffers alike; instances come and go, so a new instance may
+    // well be built from whatever an earlier one left behind
+    auto new_inst = [&](int slot) { t.ops.push_back(mk_create(g, slot, r.chance(1, 3) ? -1 : 128)); };
+    new_inst(0);
     live[0] = true;
     for (int i = 0; i < nops; i++) {
       int slot = (int)r.below(2);
       unsigned w = (unsigned)r.below(20);
       if (!live[slot]) {
-        t.ops.push_back(mk_create(g, slot, 128));
+        new_inst(slot);
         live[slot] = true;
         continue;
       }
-      if (w == 0) {
+      if (w <= 1) {
         t.ops.push_back(g.mk(OP_DESTROY, slot));
         live[slot] = false;
         continue;
@@ -862,6 +897,24 @@ void gen_c08(Gen &g) {
   else
     target = r.range(30, 400);
   std::vector<std::string> prog = gen_exec_program(r, 0, o, target);
+  if (mode >= 6 && mode <= 7 && r.chance(1, 3)) {
+    // worst-case padding: long instructions of one length L with L < c < 2L, so that every chunk holds one
+    // instruction and c - L bytes of padding; the output per line is far above the instruction length
+    long L = r.range(7, 11);
+    long cc = r.range(L + 1, 2 * L - 1);
+    for (Op &op : t.ops)
+      if (op.kind == OP_CHUNK) op.c = cc;
+    std::vector<std::string> pool;
+    for (int idx : corpus_by_len((int)L))
+      if ((corpus_all()[idx].flags & CF_SAFE) && !(corpus_all()[idx].flags & (CF_RAX | CF_RET))) pool.push_back(line_text(idx));
+    if (!pool.empty()) {
+      long nlines = std::max<long>(8, target / cc);
+      prog.clear();
+      for (long q = 0; q < nlines; q++) prog.push_back(r.pick(pool));
+      prog.push_back(line_text(r.pick(corpus_rax())));
+      prog.push_back(line_text(corpus_ret()));
+    }
+  }
   unsigned split = (unsigned)r.below(10);
   int kind = mode >= 8 ? OP_COUNT : OP_ASM;
   long cc = mode >= 8 ? (r.chance(1, 8) ? r.range(-2, 1) : r.range(2, 64)) : 0;
@@ -1040,10 +1093,32 @@ void gen_c17(Gen &g) {
   t.ops.push_back(mk_create(g, 0, -1));
   if (second) t.ops.push_back(mk_create(g, 1, r.range(200, 2000)));
   int o = opt_index(2, 1, 1);
-  // long assembly with growth, fed in a few calls
+  // long assembly with growth, fed in a few calls; plain, chunk fitting or counting
   long target = r.chance(2, 3) ? 6000 * r.range(1, 2) + r.range(100, 3000) : r.range(100, 5000);
   std::vector<std::string> prog = gen_exec_program(r, 0, o, target);
-  emit_split(g, t, 0, prog, 1, (int)r.range(200, 2000));
+  unsigned amode = (unsigned)r.below(6);  // 0..2 plain, 3..4 fitting, 5 counting
+  if (amode == 3 || amode == 4) {
+    Op ch = g.mk(OP_CHUNK, 0);
+    ch.c = r.range(2, 48);
+    if (amode == 4) {
+      // long instructions of one length with one instruction per chunk: padding in front of nearly every line,
+      // so growth is often needed in the retry after the padding
+      long L = r.range(7, 11);
+      ch.c = r.range(L + 1, 2 * L - 1);
+      std::vector<std::string> pool;
+      for (int idx : corpus_by_len((int)L))
+        if ((corpus_all()[idx].flags & CF_SAFE) && !(corpus_all()[idx].flags & (CF_RAX | CF_RET))) pool.push_back(line_text(idx));
+      if (!pool.empty()) {
+        long nlines = std::max<long>(8, target / ch.c);
+        prog.clear();
+        for (long q = 0; q < nlines; q++) prog.push_back(r.pick(pool));
+        prog.push_back(line_text(r.pick(corpus_rax())));
+        prog.push_back(line_text(corpus_ret()));
+      }
+    }
+    t.ops.push_back(ch);
+  }
+  emit_split(g, t, 0, prog, 1, (int)r.range(200, 2000), amode == 5 ? OP_COUNT : OP_ASM, r.range(2, 48));
   for (Op &op : t.ops) op.alias = false;
   std::vector<Op> tail;
   {
